@@ -19,6 +19,7 @@ type Program struct {
 	byName  map[string]*types.Package    // short name -> package (module + deps referenced in specs)
 	specs   *SpecSet
 	strLits map[string]string
+	arrKeys map[string][]string // element family -> leaf keys that can hold its backing-array ids
 	decls   map[*types.Func]*ast.FuncDecl
 	declPkg map[*types.Func]*packages.Package
 	repo    string
